@@ -268,6 +268,17 @@ func init() {
 		}
 		return nil
 	})
+	reg(pkgPrefix+"verifRecordMapRangers", func(fr *frame, a []value) value {
+		fr.i.recordRangers = a[0].(bool)
+		return nil
+	})
+	reg(pkgPrefix+"verifMapRangers", func(fr *frame, a []value) value {
+		out := make([]value, len(fr.i.mapRangers))
+		for k, r := range fr.i.mapRangers {
+			out[k] = r
+		}
+		return out
+	})
 	reg(pkgPrefix+"verifMonitorGlobals", func(fr *frame, a []value) value {
 		fr.i.monitor = a[0].(bool)
 		return nil
@@ -1107,6 +1118,41 @@ func init() {
 			return nil
 		})
 	}
+	sortSlice := func(stable bool) intrinsic {
+		return func(fr *frame, a []value) value {
+			i := fr.i
+			xs, ok := a[0].(iface).v.([]value)
+			if !ok {
+				panic(unsupported{"sort.Slice of non-slice"})
+			}
+			before := append([]value{}, xs...)
+			// sort a permutation with the interpreted less function, then apply it
+			idx := make([]int, len(xs))
+			for k := range idx {
+				idx[k] = k
+			}
+			less := func(p, q int) bool {
+				// less refers to the slice by index: evaluate it on the original order
+				return i.truth(call(i, fr, 0, a[1], []value{idx[p], idx[q]}))
+			}
+			if stable {
+				sort.SliceStable(idx, less)
+			} else {
+				sort.SliceStable(idx, less) // deterministic for replay; any valid result of sort.Slice is allowed
+			}
+			for k, p := range idx {
+				if p != k {
+					i.noteWrite(&xs[k])
+				}
+			}
+			for k, p := range idx {
+				xs[k] = before[p]
+			}
+			return nil
+		}
+	}
+	reg("sort.Slice", sortSlice(false))
+	reg("sort.SliceStable", sortSlice(true))
 	reg("runtime.NumCPU", func(fr *frame, a []value) value { return 4 })
 	reg("context.Background", func(fr *frame, a []value) value { return iface{} })
 	reg("golang.org/x/sync/semaphore.NewWeighted", func(fr *frame, a []value) value { return nativePtr("semaphore") })
